@@ -29,6 +29,7 @@ CONSTANTS
   CreateFaults = FALSE
   ReadFaults = FALSE
   TTLRollback = TRUE
+  UpdFields = {"inactive", "expired"}
   LegStatus = {"active"}
   OnlyList = {"p1"}
   Emit = FALSE
